@@ -84,6 +84,9 @@ NEEDED = {
  'C12-12': 'a day passes before every frame-matrix case, so that an interest clock moved without accrual shows in the byte diff',
  'C19-10': 'fee collection on a group with program fees switched off, offered an outsider\'s token account',
  'C19-11': 'second setup_emissions with another mint once the first budget is used up while positions are still owed rewards',
+ 'C14-12': 'bracket bodies (repay / withdraw inside a liquidation or deleverage bracket) in the bank-state matrix',
+ 'C15-12': 'clause: a successful propagation makes the group\'s copy of the pause state equal to the global one',
+ 'C19-12': 'permissionless payout for an account whose authority never chose a destination, into the all-zero wallet\'s token account',
  'C20-7': 'reserve-composition sweep: total liquidity = available + borrowed - fees with fees above the borrowed amount, fractional parts, through the real Kamino / Solend total-liquidity functions and conversions',
  'C08-7': '(caught by the sibling check C10: two start instructions in one transaction)',
  'C08-8': "C12 'nobody' cells: the permissionless staked-settings propagation aimed at ordinary banks",
